@@ -922,3 +922,45 @@ package participle
 //@ func (*parseable).Parse [C06 C02 C01]
 //@   implements node.Parse
 //@   allow-kind typeassert "reflect.New(p.t) implements Parseable: established when the node was built (parseType)"
+
+// ---------------------------------------------------------------------------------------------
+// error.go: the text of an error is its position as [file:]line:col: followed by the message (C06)
+// ---------------------------------------------------------------------------------------------
+
+// Message and Position of an Error are assumed to be functions of the error value (pure accessors).
+//@ interface Error.Message
+//@   params e
+//@   function
+//@ interface Error.Position
+//@   params e
+//@   function
+//@ func FormatError [C06]
+//@   requires err != nil
+//@   let p lexer.Position = result0 after call Error.Position#1
+//@   let m string = result0 after call Error.Message#1
+//@   let lc string = result0 after call fmt.Sprintf#1
+//@   before call fmt.Sprintf#1: assert format == "%d:%d:" && len(a) == 2 && a[0] == iface(p.Line) && a[1] == iface(p.Column)
+//@   ensures p.Filename == "" && p.Line == 0 && p.Column == 0 ==> result == m
+//@   ensures p.Filename != "" && p.Line == 0 && p.Column == 0 ==> result == "" + (p.Filename + ":") + (" " + m)
+//@   ensures p.Filename == "" && (p.Line != 0 || p.Column != 0) ==> result == "" + lc + (" " + m)
+//@   ensures p.Filename != "" && (p.Line != 0 || p.Column != 0) ==> result == "" + (p.Filename + ":") + lc + (" " + m)
+
+//@ func (*UnexpectedTokenError).Position [C06]
+//@   requires u != nil
+//@   pure
+//@   ensures result == u.Unexpected.Pos
+//@ func (*ParseError).Position [C06]
+//@   requires p != nil
+//@   pure
+//@   ensures result == p.Pos
+//@ func (*ParseError).Message [C06]
+//@   requires p != nil
+//@   pure
+//@   ensures result == p.Msg
+
+//@ func (*UnexpectedTokenError).Error [C06]
+//@   requires u != nil
+//@   before call participle.FormatError#1: assert err == iface(u)
+//@ func (*ParseError).Error [C06]
+//@   requires p != nil
+//@   before call participle.FormatError#1: assert err == iface(p)
